@@ -1890,7 +1890,7 @@ def run(ctx):
         if site == 's3':
             run_site(ctx, site, make, files, n=ctx.scale(12, 100), length=400, cap=ctx.scale(24, 400))
         elif site.startswith('s3x_'):
-            run_site(ctx, site, make, files, n=ctx.scale(6, 60), length=500, cap=ctx.scale(14, 300))
+            run_site(ctx, site, make, files, n=ctx.scale(4, 60), length=500, cap=ctx.scale(10, 300))
         elif site == 'v4_props':
             try:
                 v4p_env(ctx.seed)
